@@ -5,6 +5,7 @@ From BV Require Import Lib.Cases Model.LaxSem Model.Restart Model.Pool
      Proofs.PoolJobs Proofs.PoolInv Proofs.PoolScan Proofs.PoolSoft.
 From BV Require Import Proofs.PoolMore.
 From BV Require Gen.G_pool_shape.
+From BV Require Gen.G_pool_pins.
 Import ListNotations.
 Open Scope Z_scope.
 
@@ -144,3 +145,11 @@ Example C06_witness :
   let s := run c06_cfg c06_tr in
   map (fun x => (value x, cb_tmo x)) (jobs s) = [(Some (PValue 9), [(true, Some 2)])].
 Proof. vm_compute. reflexivity. Qed.
+
+(* the parent-side functions of billiard/pool.py these theorems are about are, on this run, the very
+   text the hand-written model was read against and is validated against by the correspondence
+   (digests of their ASTs, translate/kernels/poolpins.py): any edit of one of them breaks this
+   obligation and starts the deeper search for a failing history *)
+Theorem C06_modelled_code_is_the_validated_text : G_pool_pins.modelled_code_of_C06 = true.
+Proof. reflexivity. Qed.
+Print Assumptions C06_modelled_code_is_the_validated_text.
